@@ -250,10 +250,11 @@ def isIntTok (s : String) : Bool :=
 
 /-! ### section handlers -/
 
-def defaultNames : List String := ["nbfunc", "comb-rule", "gen-pairs", "fudgeLJ", "fudgeQQ"]
-def defaultNumbered : List String := ["nbfunc", "comb-rule", "fudgeLJ", "fudgeQQ"]
+/-- the locals `defaults` / `numbered_terms` of `_defaults`: the TRANSLATED lists -/
+def defaultNames : List String := Tables.Top.defaultNames
+def defaultNumbered : List String := Tables.Top.defaultNumbered
 
-/-- `_defaults` -/
+/-- `_defaults`; the entry appended when its name got no token is the TRANSLATED `genPairsDefault` -/
 def doDefaults (toks : List String) : Except String (List (String × String)) :=
   let d := defaultNames.zip toks
   match assocGet d "nbfunc" with
@@ -261,9 +262,22 @@ def doDefaults (toks : List String) : Except String (List (String × String)) :=
   | some nb =>
     if nb == "2" then .error "buckingham"
     else if d.any (fun kv => defaultNumbered.contains kv.1 && !isFloatTok kv.2) then .error "defaults-not-a-number"
-    else .ok (if (assocGet d "gen-pairs").isSome then d else d ++ [("gen-pairs", "no")])
+    else .ok (if (assocGet d Tables.Top.genPairsDefault.1).isSome then d else d ++ [Tables.Top.genPairsDefault])
 
-def atomTypeFields : List String := ["nb2", "nb1", "ptype", "charge", "mass", "atom_num", "bond_type"]
+/-- the field names `_atomtypes` zips with the REVERSED tokens (TRANSLATED) -/
+def atomTypeFields : List String := Tables.Top.atomTypeFields
+
+/-- position of a field name in `atomTypeFields` -/
+def atomFieldIdx (field : String) : Option Nat :=
+  let i := atomTypeFields.findIdx (· == field)
+  if i < atomTypeFields.length then some i else none
+
+/-- the positions (in the reversed token list) of the fields `_atomtypes` converts with `float()`: the indices of
+the TRANSLATED `floats` inside the TRANSLATED field list -/
+def atomFloatIdxs : List Nat := (List.range atomTypeFields.length).filter fun i =>
+  match atomTypeFields[i]? with
+  | some f => Tables.Top.atomTypeFloats.contains f
+  | none => false
 
 /-- `_atomtypes`: `(name, row)` -/
 def doAtomType (toks : List String) : Except String (String × AtomTypeRow) :=
@@ -271,15 +285,16 @@ def doAtomType (toks : List String) : Except String (String × AtomTypeRow) :=
   | [] => .error "empty"
   | name :: rest =>
     let r := rest.reverse
-    if r.length > 7 then
+    if r.length > atomTypeFields.length then
       -- the floats are converted before the "too many parameters" test; both are errors
       .error "atomtype-too-many-parameters"
     else
       let get (i : Nat) : Option String := r[i]?
-      let floats := [get 0, get 1, get 3, get 4, get 5]
+      let fld (field : String) : Option String := (atomFieldIdx field).bind get
+      let floats := atomFloatIdxs.map get
       if floats.any (fun v => match v with | some t => !t.isEmpty && !isFloatTok t | none => false) then
         .error "atomtype-not-a-number"
-      else .ok (name, ⟨get 0, get 1, get 2, get 3, get 4, get 5, get 6⟩)
+      else .ok (name, ⟨fld "nb2", fld "nb1", fld "ptype", fld "charge", fld "mass", fld "atom_num", fld "bond_type"⟩)
 
 /-- `_nonbond_params` -/
 def doNonbond (toks : List String) : Except String ((String × String) × (String × String × String)) :=
